@@ -577,11 +577,16 @@ class SemiNorm(Functional):
             exponent = 2
 
             if not is_vector:
+                # Frobenius norm of the Hessian (all entries, not the first row)
                 a    = Hessian(expr)
-                expr = Dot(a, a)
+                expr = Inner(a, a)
 
             else:
-                raise NotImplementedError('TODO')
+                if expr.shape[1] != 1:
+                    raise ValueError('Wrong expression for Matrix. must be a row')
+
+                hs   = [Hessian(vi) for vi in expr[:, 0]]
+                expr = Add(*[Inner(a, a) for a in hs])
         # ...
 
         obj = Functional.__new__(cls, expr, domain, evaluate=evaluate)
@@ -649,12 +654,19 @@ class Norm(Functional):
             exponent = 2
 
             if not is_vector:
+                # Frobenius norm of the Hessian (all entries, not the first row)
                 a    = Hessian(expr)
                 b    = Grad(expr)
-                expr = Dot(a, a) + Dot(b, b) + expr * expr
+                expr = Inner(a, a) + Dot(b, b) + expr * expr
 
             else:
-                raise NotImplementedError('TODO')
+                if expr.shape[1] != 1:
+                    raise ValueError('Wrong expression for Matrix. must be a row')
+
+                v    = Tuple(*expr[:, 0])
+                hs   = [Hessian(vi) for vi in v]
+                b    = Grad(v)
+                expr = Add(*[Inner(a, a) for a in hs]) + Inner(b, b) + Dot(v, v)
         # ...
 
         obj = Functional.__new__(cls, expr, domain, evaluate=evaluate)
